@@ -82,6 +82,9 @@ def structures(tier, seed):
     for k, (dummies, axis) in enumerate([([("Z",), ("X", "Y")], [("depth",), ("lon", "lat")]), ([("A", "B"), ("C", "D", "A")], [("lon", "lat"), ("depth", "time", "lon")]),
                                           ([("X",), ("Y",), ("Z", "W")], [("a",), ("b",), ("c", "d")]), ([("X", "Y")], [("lat", "lon")])]):
         out.append(dict(part="bind", sid=f"bind;{k}", dummies=[list(d) for d in dummies], axis=[list(a) for a in axis]))
+    # [bounded] fresh interpreters under different string-hash seeds: the axis order of autoparsed grids (catches sets that are not
+    # created through the names `set` / `frozenset`, e.g. `d.keys() | {...}`)
+    out.append(dict(part="native-seeds", sid="native-seeds[bounded];autoparsed-axis-order"))
     out.append(dict(part="canary", sid="canary;order-dependent-function"))
     # [bounded] the same link table / width mapping LISTED in different orders (faces, axes inside a face, keys of boundary_width), on
     # the real constructor, real xarray and real pad: the results are compared with each other, corners included
@@ -233,6 +236,46 @@ def run_equiv(s):
             "counts": {"order_pairs_compared": r["paths"]}}
 
 
+NATIVE_SEED_CODE = r"""
+import warnings
+import numpy as np, xarray as xr
+import xgcm
+warnings.simplefilter("ignore")
+N = 3
+out = []
+for vert in (True, False):
+    attrs = {"cf_role": "grid_topology", "topology_dimension": 2, "node_dimensions": "XG YG", "face_dimensions": "XC: XG (padding: high) YC: YG (padding: low)"}
+    if vert:
+        attrs["vertical_dimensions"] = "ZC: ZG (padding: high)"
+    ds = xr.Dataset({"grid": ((), np.array(1, dtype="int32"), attrs)}, attrs={"Conventions": "SGRID-0.3"},
+                    coords={"XC": np.arange(N) + 0.5, "XG": np.arange(N), "YC": np.arange(N) + 0.5, "YG": np.arange(N), "ZC": np.arange(2) + 0.5, "ZG": np.arange(2)})
+    out.append(list(xgcm.Grid(ds, periodic=False).axes))
+ds3 = xr.Dataset({"grid": ((), np.array(1, dtype="int32"), {"cf_role": "grid_topology", "topology_dimension": 3, "node_dimensions": "XG YG ZG",
+                 "volume_dimensions": "XC: XG (padding: high) YC: YG (padding: high) ZC: ZG (padding: high)"})}, attrs={"Conventions": "SGRID-0.3"},
+                 coords={"XC": np.arange(N) + 0.5, "XG": np.arange(N), "YC": np.arange(N) + 0.5, "YG": np.arange(N), "ZC": np.arange(2) + 0.5, "ZG": np.arange(2)})
+out.append(list(xgcm.Grid(ds3, periodic=False).axes))
+dc = xr.Dataset(coords={"lon_c": ("lon_c", np.arange(N) + 0.5, {"axis": "X"}), "lon_g": ("lon_g", np.arange(N) * 1.0, {"axis": "X", "c_grid_axis_shift": -0.5}),
+                        "lat_c": ("lat_c", np.arange(N) + 0.5, {"axis": "Y"}), "lat_g": ("lat_g", np.arange(N) * 1.0, {"axis": "Y", "c_grid_axis_shift": -0.5}),
+                        "dep": ("dep", np.arange(2) * 1.0, {"axis": "Z"}), "time": ("time", np.arange(2) * 1.0, {"axis": "T"})})
+g = xgcm.Grid(dc, periodic=False)
+out.append(list(g.axes))
+out.append([sorted(ax.coords.items()) for ax in g.axes.values()])
+print(out)
+"""
+
+
+def run_native_seeds(s):
+    import time
+    t0 = time.time()
+    outs = _multi_seed(NATIVE_SEED_CODE, seeds=range(10))
+    rec = {"fn": "metadata_parsers / Grid.__init__[bounded, fresh interpreters]", "clause": "autoparsed-axis-order-the-same-under-10-hash-seeds", "status": "proved" if len(outs) == 1 else "failed",
+           "time": time.time() - t0, "detail": next(iter(outs))[:200] if len(outs) == 1 else f"{len(outs)} distinct outcomes: {[k[:120] for k in list(outs)[:3]]}"}
+    if len(outs) != 1:
+        rec["witness"] = {"part": "native-seeds", "outcomes": {k[:300]: v for k, v in outs.items()}}
+    return {"sid": s["sid"], "obligations": [rec], "paths": 0, "queries": 0, "solver_time": 0.0, "engine_errors": [], "covers": {"native-seeds": 1},
+            "counts": {"bounded_standin_evaluations": 10}}
+
+
 def run_bind(s):
     """_identify_dummy_axes_with_real_axes under demonic set iteration: the mapping is the positional one (first appearance)"""
     mods = util.xgcm_modules()
@@ -349,7 +392,7 @@ def run_canary(s):
 
 
 def run_structure(s):
-    return {"pad": run_pad, "equiv": run_equiv, "parse": run_parse, "metric": run_metric, "canary": run_canary, "native-listing": run_native_listing, "bind": run_bind}[s["part"]](s)
+    return {"pad": run_pad, "equiv": run_equiv, "parse": run_parse, "metric": run_metric, "canary": run_canary, "native-listing": run_native_listing, "bind": run_bind, "native-seeds": run_native_seeds}[s["part"]](s)
 
 
 REQUIRED_COVERS = ["padded", "parsed", "metric", "equiv"]
@@ -372,6 +415,9 @@ def _multi_seed(code, seeds=range(24)):
 def replay(ob):
     wit = ob.get("witness") or {}
     part = wit.get("part")
+    if part == "native-seeds":
+        outs = _multi_seed(NATIVE_SEED_CODE, seeds=range(10))
+        return {"confirmed": len(outs) > 1, "text": f"autoparsed grids in fresh interpreters under 10 hash seeds: {len(outs)} distinct outcome(s): " + "; ".join(f"{k[:160]} (seeds {v})" for k, v in list(outs.items())[:3])}
     if part == "bind":
         code = f"""
 import xgcm.grid_ufunc as GU
